@@ -22,7 +22,14 @@ func genConcurrent(r *Rand, n int, o histOpts, limit int) *Case {
 		// startup packet (health check, port scan); whatever the server does with
 		// it must not disturb the sessions that follow
 		var probe pgwire.FMsg
-		switch r.Intn(4) {
+		switch r.Intn(6) {
+		case 4: // a startup packet whose parameter list is not terminated
+			probe = startupMsg("probe", "db")
+			probe.NoTerm = true
+		case 5: // a parameter name without a value
+			probe = startupMsg("probe", "db")
+			probe.NoTerm = true
+			probe.Tail = []byte("orphan-key\x00")
 		case 0:
 			probe = pgwire.FMsg{K: "raw", Data: nil}
 		case 1:
@@ -52,6 +59,11 @@ func genConcurrent(r *Rand, n int, o histOpts, limit int) *Case {
 		}
 	}
 	c.Sched = &SchedCase{Strategy: r.Pick("uniform", "pct", "pct"), Depth: r.Range(1, 3), MaxSteps: 300000}
+	if r.Chance(1, 10) {
+		// the listener breaks once all these connections are in: Serve may end,
+		// the sessions that exist are served as if nothing had happened
+		c.Sched.AcceptErr = true
+	}
 	return c
 }
 
@@ -103,7 +115,7 @@ func checkConcurrent(prop string, x *Exec, c *Case, nsched int) ([]Violation, bo
 		}
 		if r.Outcome != RunIdle || r.Dirty {
 			*c = *v
-			return []Violation{{Prop: prop, Rule: "concurrent-run-stuck", Sig: "concurrent-run-stuck", Detail: fmt.Sprintf("the concurrent run did not finish: outcome=%d parked=%v", r.Outcome, r.Stuck)}}, true
+			return []Violation{{Prop: prop, Rule: "concurrent-run-stuck", Sig: "concurrent-run-stuck", Detail: fmt.Sprintf("the concurrent run did not finish: outcome=%d parked=%v %s", r.Outcome, r.Stuck, r.DirtyWhy)}}, true
 		}
 		for i, cs := range r.Conns {
 			t := ParseOut(cs)
@@ -158,6 +170,11 @@ func genC15TLS(r *Rand) *Case {
 	if r.Chance(1, 3) {
 		c.Server.TLSVia = r.Pick("field", "late-cert")
 	}
+	if r.Chance(1, 3) {
+		// a peer that asks for TLS and then goes silent (it never starts the
+		// handshake and keeps the connection open): the others are not its hostages
+		c.Conns = append(c.Conns, ConnCase{Steps: []Step{{Msgs: []pgwire.FMsg{{K: "ssl"}}}}, NoEOF: true})
+	}
 	n := r.Range(2, 3)
 	for i := 0; i < n; i++ {
 		key := fmt.Sprintf("t%d", i)
@@ -178,6 +195,9 @@ func checkC15TLS(x *Exec, c *Case) ([]Violation, bool) {
 	v := c.Clone()
 	refT := make([]string, len(c.Conns))
 	for i := range c.Conns {
+		if c.Conns[i].TLS == nil {
+			continue // the silent peer
+		}
 		ref := c.Clone()
 		ref.Sched = nil
 		ref.Server.TLS, ref.Server.TLSVia = "", ""
@@ -200,6 +220,12 @@ func checkC15TLS(x *Exec, c *Case) ([]Violation, bool) {
 		return []Violation{{Prop: "C15", Rule: "concurrent-run-stuck", Sig: "concurrent-run-stuck tls", Detail: fmt.Sprintf("the concurrent TLS upgrades did not finish: outcome=%d parked=%v", r.Outcome, r.Stuck)}}, true
 	}
 	for i, cs := range r.Conns {
+		if cs.cc.TLS == nil {
+			if string(cs.Out) != "S" {
+				viol = append(viol, Violation{Prop: "C15", Rule: "ssl-answer", Sig: "ssl-answer silent peer", Detail: fmt.Sprintf("connection %d asked for TLS and went silent: it was answered %q, want the single byte 'S'", i, trunc(string(cs.Out), 12))})
+			}
+			continue
+		}
 		msgs, gerr := pgwire.ParseStream(cs.Plain)
 		if !cs.TLSUp || gerr != nil || Canonical(msgs) != refT[i] {
 			viol = append(viol, Violation{Prop: "C15", Rule: "connection-interference", Sig: "connection-interference tls",
